@@ -10,10 +10,39 @@ var numKinds = []string{"int", "int8", "int16", "int32", "int64", "uint", "uint8
 
 // mkNum returns a symbolic value of numeric kind k (any bit pattern of that
 // type within the exactly representable range) and its exact float64 value.
+// exact64 reports whether the magnitude u converts to float64 exactly (at
+// most 53 significant bits).
+func exact64(u uint64) bool {
+	for s := uint(0); s < 11; s++ {
+		if u < 1<<(53+s) {
+			return u&(1<<s-1) == 0
+		}
+	}
+	return u&(1<<11-1) == 0
+}
+
+// exactInt is any int64 that float64 represents exactly (every magnitude up
+// to 2^63, not only those below 2^53).
+func exactInt(label string) int64 {
+	x := int64(verif.Int(label))
+	m := uint64(x)
+	if x < 0 {
+		m = uint64(-x)
+	}
+	verif.Assume(exact64(m))
+	return x
+}
+
+func exactUint(label string) uint64 {
+	x := uint64(verif.Int(label))
+	verif.Assume(exact64(x))
+	return x
+}
+
 func mkNum(k int, label string) (any, float64) {
 	switch k {
 	case 0:
-		x := verif.IntRange(label, -(1 << 53), 1<<53)
+		x := int(exactInt(label))
 		return x, float64(x)
 	case 1:
 		x := int8(verif.Int(label))
@@ -25,10 +54,10 @@ func mkNum(k int, label string) (any, float64) {
 		x := int32(verif.Int(label))
 		return x, float64(x)
 	case 4:
-		x := int64(verif.IntRange(label, -(1 << 53), 1<<53))
+		x := exactInt(label)
 		return x, float64(x)
 	case 5:
-		x := uint(verif.IntRange(label, 0, 1<<53))
+		x := uint(exactUint(label))
 		return x, float64(x)
 	case 6:
 		x := uint8(verif.Int(label))
@@ -40,7 +69,7 @@ func mkNum(k int, label string) (any, float64) {
 		x := uint32(verif.Int(label))
 		return x, float64(x)
 	case 9:
-		x := uint64(verif.IntRange(label, 0, 1<<53))
+		x := exactUint(label)
 		return x, float64(x)
 	case 10:
 		x := float32(verif.IntRange(label, -(1<<24), 1<<24)) / 4
